@@ -19,6 +19,9 @@ PID = 'C11'
 LEAN_MODULES = ['ThermoVerif.Props.C11']
 RULE = ('histories (8–45 ops) over 1–3 real streams (single- and multi-phase; Water/Ethanol/Methanol/Glycerol and a '
         'second package with other order + Propanol): reads and writes through imol/imass/ivol, F_*, get/set_flow, '
+        'imol/imass/ivol.get_data/set_data(units), get_property/set_property(F_*, units) and indexer constructors with units= '
+        '(unit strings drawn from all flow units, so mostly of another dimension than the view; each case starts from cold '
+        'unit memos and many first convert legitimately to the same units string), '
         'whole-view assignment (s.mass = o.mass, s.vol = o.vol, ivol.data.copy_like(o.vol), imass[phase] = row / ndarray) '
         'between streams of different T / P / phase, get/set_total_flow in kmol/hr, mol/s, kg/hr, lb/hr, g/min, m3/hr, L/min, gal/min (+ non-flow units), '
         'on originals, phase views ms[phase], proxy() and flow_proxy() objects, interleaved with T, P, phase, phases, link_with (8 flag combinations), unlink, copy_like, _reset_thermo, '
@@ -57,6 +60,7 @@ UNIT_FACTOR = {}
 CONV = {}
 CFG = []          # (model line, expected answer)
 RTOL, ATOL = 1e-9, 1e-12
+DIM_ERRORS = ()
 # Assigning a view from a *different* view object over the very same molar rows (flow-linked streams, phase views) wiped
 # the data before a8461dd (fixes_proposed/C11-5); C11_ALIASED=0 switches these cases off.
 import os
@@ -84,6 +88,9 @@ def setup():
     RXNS['mwt'] = tmo.Reaction('Ethanol,l -> Methanol,g', phases='lg', basis='wt', **kw)
     tmo.settings.set_thermo(THERMOS[0])
     ureg = tmo.units_of_measure.ureg
+    global DIM_ERRORS
+    import pint
+    DIM_ERRORS = (tmo.exceptions.DimensionError, pint.errors.DimensionalityError)
     dims = {k: ureg.get_dimensionality(v) for k, v in BASE.items()}
     CFG.clear()
     for k, th in enumerate(THERMOS):
@@ -106,7 +113,7 @@ def setup():
 
 
 def budget(tier):
-    return {'quick': dict(seconds=70, cases=1100, shrink_s=20, search_s=5),
+    return {'quick': dict(seconds=70, cases=1500, shrink_s=20, search_s=5),
             'thorough': dict(seconds=480, cases=12000, shrink_s=40, search_s=20)}[tier]
 
 
@@ -214,7 +221,23 @@ def diagnose(w, s, kind, generic):
     return generic
 
 
+def reset_unit_memos():
+    """every case starts from cold unit-conversion memos, so that a history-dependent failure is reproduced by the case
+    alone (the memos are class / module level and would otherwise carry over between cases of one worker)"""
+    try:
+        tmo.Stream._flow_cache.clear()
+    except Exception:
+        pass
+    A = tmo.units_of_measure.AbsoluteUnitsOfMeasure
+    for name, val in list(vars(A).items()):
+        if isinstance(val, dict) and name != '_cache': val.clear()
+    for u in list(A._cache.values()):
+        fc = getattr(u, 'factor_cache', None)
+        if isinstance(fc, dict): fc.clear()
+
+
 def run_ops(ops):
+    reset_unit_memos()
     w = World()
     model_in, outs, failures, tags = [], [], [], set()
     pending = [None]
@@ -267,6 +290,16 @@ def run_ops(ops):
                          f'{mol_rows(s)[pi(ph)] if ph in pi else "-"}; T {v.T} vs {s.T})')
 
     RESTRUCTURING = ('setphase', 'setphases', 'link', 'unlink', 'copylike', 'thermo', 'view', 'proxy', 'flowproxy')
+
+    def view_guard(sid, s, what, dim, u, err, before, x):
+        """a unit of another dimension than the view / property it is applied to must be rejected and change nothing"""
+        if UNIT_DIM[u] == dim: return
+        if err != 'err DimensionError':
+            fail('dimension_guard:view-units',
+                 f'stream {sid}: {what} with units {u!r} ({UNIT_DIM[u]}) on a {dim} quantity was accepted '
+                 f'(value {x!r}); flows before {before}, after {mol_rows(s)}')
+        elif mol_rows(s) != before:
+            fail('dimension_guard:view-units', f'stream {sid}: {what} with units {u!r} was rejected but changed the flows')
 
     def key_of(s, phsel, i):
         """(model ph token, model index, real key)"""
@@ -548,6 +581,83 @@ def run_ops(ops):
                          f'stream {sid} (phase(s) {phases_of(s)}, T={s.T}, P={s.P}): assigned {dim} flows {xs} '
                          f'({mode}, from stream {oid} at phase(s) {phases_of(o)}, T={o.T}, P={o.P}); molar flows are {got}, '
                          f'expected value/factor at the receiver\'s conditions = {exp}')
+        elif op in ('getdata', 'setdata'):
+            # imol / imass / ivol .get_data(units, key) / .set_data(x, units, key)
+            sid = S(t[1]); s = w.streams[sid]; dim = t[2]; u = t[3]
+            ph, i, key = key_of(s, t[4], t[5])
+            udim = UNIT_DIM[u]
+            V = vtok(s, dim == 'vol')
+            before = mol_rows(s)
+            x = float(t[6]) if op == 'setdata' else None
+            ml = f'getdata {sid} {dim} {u} {ph} {i} {V}' if op == 'getdata' else f'setdata {sid} {dim} {u} {ph} {i} {frac(x)} {V}'
+            pend(sid, dim, ml)
+            ix = indexer(s, dim)
+            try:
+                if op == 'getdata': x = float(ix.get_data(u, key))
+                else: ix.set_data(x, u, key)
+                err = None
+            except DIM_ERRORS:
+                err = 'err DimensionError'
+            view_guard(sid, s, f'i{dim}.{"get" if op == "getdata" else "set"}_data', dim, u, err, before, x)
+            vt = '-' if dim == 'mol' or err else w.vnum(indexer(s, dim))
+            if op == 'getdata':
+                emit(ml, err or f'x {vt} {fbits(x)}')
+                if err is None and udim == dim:
+                    check_elem(sid, s, dim, ph, i, x, UNIT_FACTOR[u])
+                    ls = w.last_set
+                    if ls and ls[0] == 'flow' and ls[1:4] == (sid, ph, i) and UNIT_DIM[ls[4]] == dim:
+                        exp = ls[5] * CONV[ls[4], u]
+                        if not close(x, exp, RTOL, ATOL):
+                            fail(f'roundtrip:get_data:{dim}', f'stream {sid}: a flow of {ls[5]!r} {ls[4]} written, '
+                                 f'i{dim}.get_data({u!r}) gives {x!r}, expected {exp!r}')
+                    if dim != 'mol': note_view_read()
+            else:
+                emit(ml, err or f'w {vt}')
+                w.last_set = ('flow', sid, ph, i, u, x) if err is None and udim == dim else None
+        elif op in ('getprop', 'setprop'):
+            # get_property('F_<dim>', units) / set_property('F_<dim>', x, units)
+            sid = S(t[1]); s = w.streams[sid]; dim = t[2]; u = t[3]
+            udim = UNIT_DIM[u]
+            V = vtok(s, dim == 'vol')
+            before = mol_rows(s)
+            z0, F0 = composition(s)
+            x = float(t[4]) if op == 'setprop' else None
+            ml = f'getprop {sid} {dim} {u} {V}' if op == 'getprop' else f'setprop {sid} {dim} {u} {frac(x)} {V}'
+            try:
+                if op == 'getprop': x = float(s.get_property('F_' + dim, u))
+                else: s.set_property('F_' + dim, x, u)
+                err = None
+            except DIM_ERRORS:
+                err = 'err DimensionError'
+            except AttributeError:
+                err = 'err UndefinedComposition'
+            view_guard(sid, s, f'{"get" if op == "getprop" else "set"}_property(F_{dim})', dim, u, err, before, x)
+            if op == 'getprop':
+                emit(ml, err or f'x - {fbits(x)}')
+                if err is None and udim == dim:
+                    exp = float(getattr(s, 'F_' + dim)) * UNIT_FACTOR[u]
+                    if not close(x, exp, RTOL, ATOL):
+                        fail(f'get_property:F_{dim}', f'stream {sid}: get_property(F_{dim}, {u!r}) = {x!r}, expected {exp!r}')
+            else:
+                emit(ml, err or 'ok')
+                w.last_set = None
+                if err is None and udim == dim:
+                    check_total_set(sid, s, dim, x, UNIT_FACTOR[u], z0, F0, f'set_property(F_{dim}, {u!r})')
+        elif op == 'ctor':
+            # Chemical{Molar,Mass,Volumetric}FlowIndexer(phase, units=u, chemicals, Water=1): data = 1 / factor
+            dim, u = t[1], t[2]
+            cls = {'mol': tmo.indexer.ChemicalMolarFlowIndexer, 'mass': tmo.indexer.ChemicalMassFlowIndexer,
+                   'vol': tmo.indexer.ChemicalVolumetricFlowIndexer}[dim]
+            chems = THERMOS[0].chemicals
+            try:
+                ix = cls(phase='l', units=u, chemicals=chems, **{chems.IDs[0]: 1.})
+                val = float(ix.data[0]); err = None
+            except DIM_ERRORS:
+                err = 'err DimensionError'
+            if UNIT_DIM[u] != dim and err is None:
+                fail('dimension_guard:view-units', f'{cls.__name__}(units={u!r}) was accepted although {u!r} is not a '
+                     f'{dim} flow unit (data {val!r})')
+            emit(f'unitfor {dim} {u}', err or f'x - {fbits(1. / val)}')
         elif op in ('getflow', 'setflow'):
             sid = S(t[1]); s = w.streams[sid]; u = t[2]
             ph, i, key = key_of(s, t[3], t[4])
@@ -765,7 +875,8 @@ def gen_read(rng, o):
     if r < 0.56: return f'rdvol {o}'
     if r < 0.64: return f'rdF {o} {rng.choice(["mol", "mass", "vol", "vol"])}'
     if r < 0.76: return f'get {o} {rng.choice(["mol", "mass", "vol"])} {rng.randrange(3)} {rng.randrange(5)}'
-    if r < 0.90: return f'getflow {o} {rng.choice(FLOW_UNITS)} {rng.randrange(3)} {rng.randrange(5)}'
+    if r < 0.84: return f'getflow {o} {rng.choice(FLOW_UNITS)} {rng.randrange(3)} {rng.randrange(5)}'
+    if r < 0.90: return gen_view_units(rng, o, False)
     return f'gettotal {o} {rng.choice(FLOW_UNITS)}'
 
 
@@ -774,8 +885,36 @@ def gen_assign(rng, o, n):
             f'{rng.choice(["view", "view", "copylike", "arr"])} {rng.randrange(3)} {rng.randrange(3)}')
 
 
+ALL_DIMS = ['mol', 'mass', 'vol']
+
+
+def gen_view_units(rng, o, write):
+    """a units-taking entry point of ONE view / property, with a unit string drawn from all flow units (so two times out of
+    three of another dimension, which must be rejected whatever was converted before) or a non-flow unit"""
+    dim = rng.choice(ALL_DIMS)
+    u = rng.choice(FLOW_UNITS) if rng.random() < 0.9 else rng.choice(OTHER_UNITS)
+    r = rng.random()
+    if r < 0.1: return f'ctor {dim} {u}'
+    if write:
+        return (f'setdata {o} {dim} {u} {rng.randrange(3)} {rng.randrange(5)} {rng.choice(XS)}' if r < 0.6
+                else f'setprop {o} {dim} {u} {rng.choice(XS[1:])}')
+    return f'getdata {o} {dim} {u} {rng.randrange(3)} {rng.randrange(5)}' if r < 0.6 else f'getprop {o} {dim} {u}'
+
+
 def gen_write(rng, o):
     r = rng.random()
+    if r < 0.12:
+        # the same units string first through the right view (legitimate), then on the views of the other dimensions
+        u = rng.choice(FLOW_UNITS); ph, i = rng.randrange(3), rng.randrange(5)
+        out = [rng.choice([f'getflow {o} {u} {ph} {i}', f'gettotal {o} {u}', f'setflow {o} {u} {ph} {i} {rng.choice(XS)}',
+                           f'getdata {o} {UNIT_DIM.get(u, "mol")} {u} {ph} {i}'])]
+        for d in ALL_DIMS:
+            out.append(rng.choice([f'getdata {o} {d} {u} {ph} {i}', f'setdata {o} {d} {u} {ph} {i} {rng.choice(XS)}',
+                                   f'getprop {o} {d} {u}', f'setprop {o} {d} {u} {rng.choice(XS[1:])}', f'ctor {d} {u}']))
+        return out + [f'obs {o}']
+    if r < 0.22:
+        w1 = gen_view_units(rng, o, True)
+        return [w1, gen_view_units(rng, o, False)]
     if r < 0.30: return [f'put {o} {rng.choice(["mol", "mass", "vol"])} {rng.randrange(3)} {rng.randrange(5)} {rng.choice(XS)}']
     if r < 0.65:
         ph, i, u = rng.randrange(3), rng.randrange(5), rng.choice(FLOW_UNITS)
@@ -889,6 +1028,13 @@ def grid():
                     out.append(Case(['newm 0 gl 298.15 101325.0 1,1,0,0|0,2,0,1', other] + (['obs 0', 'obs 1'] if pre else []) +
                                     [f'assign 0 {dim} 1 {mode} 1 0', 'obs 0', f'assign 0 {dim} 1 {mode} 0 1', 'obs 0', 'obs 1'],
                                     {'grid': 'assign'}))
+    for u in FLOW_UNITS:
+        for d2 in ('mol', 'mass', 'vol'):
+            for entry in (f'getdata 0 {d2} {u} 0 1', f'setdata 0 {d2} {u} 0 1 3', f'getprop 0 {d2} {u}',
+                          f'setprop 0 {d2} {u} 7', f'ctor {d2} {u}'):
+                for legit in (f'getflow 0 {u} 0 1', f'gettotal 0 {u}', None):
+                    out.append(Case(['new1 0 l 298.15 101325.0 1,2,0,0.5'] + ([legit] if legit else []) + [entry, 'obs 0'],
+                                    {'grid': 'view-units'}))
     for u in OTHER_UNITS:
         out.append(Case(['new1 0 l 298.15 101325.0 1,2,0,0.5', f'getflow 0 {u} 0 0', f'setflow 0 {u} 0 0 1.5',
                          f'gettotal 0 {u}', f'settotal 0 {u} 2', 'obs 0'], {'grid': 'dimension'}))
